@@ -176,8 +176,9 @@ def run(prop, tier):
     env = dict(os.environ)
     env["PYTHONHASHSEED"] = str(1000 + common.seed())
     inp = "".join(json.dumps({"id": ci, "src": s}) + "\n" for ci, s in sources.items())
+    import func_adl
     p = subprocess.run([sys.executable, "-c", SUBPROC], input=inp, capture_output=True, text=True, env=env,
-                       cwd="/repo")
+                       cwd=os.path.dirname(os.path.dirname(func_adl.__file__)))
     if p.returncode != 0:
         raise common.MachineryError("hash subprocess failed: " + p.stderr[-500:])
     for line in p.stdout.splitlines():
